@@ -201,6 +201,10 @@ func renderMpcl(mc *mpCase) string {
 			a := name(s.X)
 			n := def(rType{s: types[s.X-1].elem})
 			fmt.Fprintf(&body, "\t%s := %s[%d]\n", n, a, s.C)
+		case "idxv":
+			a, u := name(s.X), name(s.Y)
+			n := def(rType{s: types[s.X-1].elem})
+			fmt.Fprintf(&body, "\t%s := %s[%s %% 3]\n", n, a, u)
 		case "aset":
 			a, x := name(s.X), name(s.Y)
 			n := def(types[s.X-1])
